@@ -382,7 +382,7 @@ func checkStorageMessages(c *core.Ctx, rule string) {
 							el = ex.Tuple // msg, ok := messages[i]
 						}
 						if lk, ok := el.(*ssa.Lookup); ok && lk.Index == ssa.Value(idx) {
-							if f, _ := an.LoadedField(lk.X); f != nil && f.Name() == "messages" {
+							if f, _ := an.LoadedField(lk.X); f != nil && an.FieldName(f) == "messages" {
 								okAppend = true
 							}
 						}
@@ -507,7 +507,7 @@ func checkBatchDelivery(c *core.Ctx, rule string) {
 		sends, dones := 0, 0
 		for _, st := range sel.States {
 			if st.Dir == 1 && st.Send == ssa.Value(hraw.Params[1]) {
-				if f, _ := an.LoadedField(st.Chan); f != nil && f.Name() == "out" {
+				if f, _ := an.LoadedField(st.Chan); f != nil && an.FieldName(f) == "out" {
 					sends++
 				}
 			}
